@@ -303,7 +303,7 @@ class EvaluateImpl(GraphKernel):
         return []
 
     # the unwind guard's loop (F15): after a node failure the slots behind the failing node are folded into the cache
-    FOLD_MATCH = "index = state.evaluation_cursor;"
+    FOLD_MATCH = "index < runtime.layout.node_count"
     MAIN_MATCH = "state.evaluation_cursor < runtime.layout.node_count"
 
     def fold_inv(self, I, ctx):
@@ -377,7 +377,7 @@ class EvaluateImpl(GraphKernel):
                    z3.Implies(z3.Not(gs.started0), z3.And(gs.sched(ctx) == gs.sched0,
                                                          gs.header_unchanged(ctx, ctx.pre_store))),
                    kind="post-exceptional")
-        ctx.oblige("raises.node-failure:cursor-on-failing-node,failed-flag,not-evaluating[C15 failed_node]",
+        ctx.oblige("raises.node-failure:cursor-on-failing-node,failed-flag,not-evaluating[C15 failed_node; C01 the cycle after a failure is a fresh scan (every producer has its turn before its consumers), not a resumed one; C02; C09]",
                    z3.Implies(gs.started0, z3.And(cur == ti, gs.get(ctx, "evaluation_failed"),
                                                   z3.Not(gs.get(ctx, "evaluating")))), kind="post-exceptional")
         # property-derived (C15: in later cycles the failing node AND the rest of the graph evaluate normally again; C02: no
